@@ -6,6 +6,7 @@ from common import from_replay, to_replay  # noqa: F401
 COQ_MODULE = "Prop_C07"
 THEOREMS = ["C07_sorting_exact", "C07_retry_exact", "C07_monitor"]
 CASE_MODULES = ["Monitors"]
+STATIC_CORPUS = "C07"
 CHECK_WITHOUT_PROOF = True
 TRUSTED = common.TRUSTED_COMMON
 ASSUMPTIONS = common.ASSUME_COMMON + [
